@@ -76,5 +76,10 @@ def check(ctx, world):
     include(ctx, world, "c15", "C15", keep=lambda o: not o.rule.endswith("-width") or o.rule in ("K1-width", "K4-width"))
     include(ctx, world, "c18", "C18", keep=lambda o: not o.rule.startswith("D-") and o.rule != "N-ctor-assert")
     include(ctx, world, "c08", "C08", keep=lambda o: o.rule in ("Z4", "Z3-total"))
+    # the element operations the protocol uses compute the group operation and handle the identity
+    # (otherwise encode(x*(In - w*N)) is not the published K for the inputs that reach those cases)
+    include(ctx, world, "c13", "C13", keep=lambda o: o.rule in ("G1-add", "G1-scalarmult", "G1-zero", "G3-sum", "G3-modL", "G3-identity", "G6", "G7")
+            or o.rule.startswith("G5/") or (o.rule == "G3-closure" and (o.instance.startswith("add(") or o.instance.startswith("scalarmult("))))
+    include(ctx, world, "c12", "C12", keep=lambda o: o.rule.endswith("-law") or o.rule.endswith("-denominator") or o.rule == "P4")
     # B3 of C02: the password reaches the scalar unmodified (a wire-visible derivation)
     include(ctx, world, "c02", "C02", keep=lambda o: o.rule.startswith("B3"))
